@@ -1480,6 +1480,19 @@ for _p in ("C01", "C07"):
         [(MT, "func (sn *snode) sremove(topic []byte, sub interface{}) error {\n	// If the topic is empty, it means we are at the final matching snode. If so,\n	// let's find the matching subscribers and remove them.\n	if topic == nil {", "func (sn *snode) sremove(topic []byte, sub interface{}) error {\n	// If the topic is empty, it means we are at the final matching snode. If so,\n	// let's find the matching subscribers and remove them.\n	if len(topic) == 0 {")],
         [_p + "/T9-level-structure/sremove:end-of-levels-signal-unambiguous"])
 
+# ---------------------------------------------------------------- failed results on the accept path (P7b)
+_LOGREQ = ("	if err != nil {\n		log.Warningf(\"Decoding of connect message failed: %v\", err)\n		if cerr, ok := err.(message.ConnackCode); ok {\n",
+           "	if err != nil {\n		log.Warningf(\"Decoding of connect message failed: %v\", err)\n		if cerr, ok := err.(message.ConnackCode); ok {\n			log.Debugf(\"(%s) Refusing connection with return code %d\", req.ClientID(), cerr.Value())\n")
+pos("C05", "accept-uses-request-after-failed-decode", "the CONNECT reader returns nil on a decode failure and the refusal path logs the client id of the request (two cooperating sites)",
+    [(SRV, _LOGREQ[0], _LOGREQ[1]),
+     (MISC, "	msg := message.NewConnectMessage()\n\n	_, err = msg.Decode(buf)\n	return msg, err\n", "	msg := message.NewConnectMessage()\n\n	if _, err = msg.Decode(buf); err != nil {\n		return nil, err\n	}\n	return msg, nil\n")],
+    ["C05/P7b-failed-result-not-used/(*service.Server).handleConnection:getConnectMessage#0:result-not-used-after-failure"])
+neg("C05", "neg-accept-logs-request-of-refused-connect", "the refusal path logs the client id of the decoded request (the reader still returns the message with a ConnackCode error)",
+    [(SRV, _LOGREQ[0], _LOGREQ[1])])
+pos("C05", "readwait-accepts-oversized-request-stalls", "ReadWait no longer refuses a request larger than the ring: the processor waits forever for bytes that cannot fit",
+    [(BUF, "func (bf *buffer) ReadWait(n int) ([]byte, error) {\n	if int64(n) > bf.size {\n		return nil, bufio.ErrBufferFull\n	}\n", "func (bf *buffer) ReadWait(n int) ([]byte, error) {\n")],
+    ["C05/P5-order/ReadWait:rejects-packet-larger-than-ring"])
+
 
 def main():
     os.makedirs(OUT, exist_ok=True)
